@@ -15,11 +15,17 @@ func init() {
 			"(4) the in-flight view: StateNode.Taints returns unfiltered taints only when Initialized or unmanaged, the filter drops known-ephemeral and startup taints; " +
 			"Allocatable returns the raw Node allocatable only when Initialized or without NodeClaim, zero quantities are overridden from NodeClaim.Status; Labels returns Node labels only once registered; " +
 			"NewExistingNode derives remainingResources from Available() minus remaining daemon overhead and requirements from Labels(); PopulateNodeClaimDetails copies ProviderID, Allocatable and Capacity from the provider's answer; " +
-			"(5) a pass only runs after Cluster.Synced, Synced is false while a NodeClaim has no provider id, and Create registers the NodeClaim with cluster state before returning.",
+			"(5) a pass only runs after Cluster.Synced, Synced is false while a NodeClaim has no provider id, and Create registers the NodeClaim with cluster state before returning; " +
+			"(6) what an informer event keeps: a StateNode rebuilt from a NodeClaim event takes Node, daemonSetRequests, podRequests, hostPortUsage, volumeUsage and markedForDeletion each from the field of the same name of the old StateNode, " +
+			"one rebuilt from a Node event takes NodeClaim and markedForDeletion the same way; " +
+			"(7) the labels a NodeClaim is created with: every requirement key that is not well-known, restricted or simulation-only becomes a label valued Requirement.Any() of that requirement unless Any() reports no value, " +
+			"Any() reports no value only for an operator without values or an empty integer range, ToNodeClaim merges that map into the labels before copying them into the object it returns, and at launch the NodeClaim's own labels win over the provider's.",
 		NotCovered: []string{
 			"that CanAdd on the in-flight view admits whatever the creating NodeClaim admitted (value-dependent: allocatable of the launched type, daemon overhead equivalence, hostname labels)",
 			"pods with inter-pod constraints or preferences (excluded by the property)",
 			"timing between the API write and the informer event beyond the UpdateNodeClaim-in-Create ordering",
+			"that the value Requirement.Any() picks is one the requirement (and the pod) admits, and that the Node's labels follow the NodeClaim's after registration (value-dependent / another controller)",
+			"aggregates that scheduling does not read (daemonSetLimits, podLimits, podDisruptionCosts, nominatedUntil) in the carry-over rule: C11.COPY3 covers every field",
 		},
 		Rules: c04Rules,
 	})
@@ -29,6 +35,12 @@ func c04Rules(tier string) []Rule {
 	rules := append(c04RulesBase(tier), allocatableViewRules("C04")...)
 	rules = append(rules, usageBookkeepingRules("C04")...)
 	rules = append(rules, syncedFreshRules("C04")...)
+	// (6) what the scheduler reads of an existing / in-flight node survives informer events field by field
+	rules = append(rules, stateCarryOverRules("C04",
+		[]string{"Node", "daemonSetRequests", "podRequests", "hostPortUsage", "volumeUsage", "markedForDeletion"},
+		[]string{"NodeClaim", "markedForDeletion"})...)
+	// (7) the NodeClaim that was opened for a pod carries, as labels, every custom key the pod was admitted on
+	rules = append(rules, createdLabelsRules("C04")...)
 	return rules
 }
 
